@@ -173,9 +173,9 @@ func handleSliceWithReflection(sb *strings.Builder, v any) (bool, error) {
 func processStringMap(sb *strings.Builder, m map[string]string) error {
 	for _, name := range slices.Sorted(maps.Keys(m)) {
 		name, value := safehtml.SanitizeCSS(name, m[name])
-		sb.WriteString(html.EscapeString(name))
+		sb.WriteString(name)
 		sb.WriteRune(':')
-		sb.WriteString(html.EscapeString(value))
+		sb.WriteString(value)
 		sb.WriteRune(';')
 	}
 	return nil
@@ -195,9 +195,9 @@ func processSafeCSSPropertyMap(sb *strings.Builder, m map[string]templ.SafeCSSPr
 // processStringKV processes a templ.KeyValue[string, string].
 func processStringKV(sb *strings.Builder, kv templ.KeyValue[string, string]) error {
 	name, value := safehtml.SanitizeCSS(kv.Key, kv.Value)
-	sb.WriteString(html.EscapeString(name))
+	sb.WriteString(name)
 	sb.WriteRune(':')
-	sb.WriteString(html.EscapeString(value))
+	sb.WriteString(value)
 	sb.WriteRune(';')
 	return nil
 }
